@@ -105,3 +105,72 @@ func mkScalarHist(v *big.Int, hist int) *secp256k1.Scalar {
 	}
 	return used
 }
+
+var (
+	rPw    = new(big.Int).Mod(new(big.Int).Lsh(big.NewInt(1), 256), ref.P)
+	rPwInv = new(big.Int).ModInverse(rPw, ref.P)
+)
+
+// Aim asks for one intermediate value of a formula (index I into the list the check documents) to take the value
+// Tau, by re-scaling one operand's projective representation. Mont: Tau is given as Montgomery limbs (the stored
+// form of the intermediate takes that bit pattern).
+type Aim struct {
+	I    int    `json:"i"`
+	Tau  string `json:"tau"`
+	Mont bool   `json:"mont,omitempty"`
+}
+
+func (a *Aim) value() *big.Int {
+	v := new(big.Int).Mod(gen.B(a.Tau), ref.P)
+	if a.Mont {
+		v.Mod(v.Mul(v, rPwInv), ref.P)
+	}
+	return v
+}
+
+// AimGen draws an aim with n possible intermediates.
+func AimGen(n int) *rapid.Generator[*Aim] {
+	return rapid.Custom(func(t *rapid.T) *Aim {
+		return &Aim{I: rapid.IntRange(0, n-1).Draw(t, "aimI"), Tau: gen.H(gen.NonZeroInt(ref.P).Draw(t, "aimTau")), Mont: rapid.IntRange(0, 2).Draw(t, "aimMont") > 0}
+	})
+}
+
+// rescaleTo multiplies the raw coordinates of b by lambda (white-box) and returns the re-inspected element.
+func rescaleTo(b *pt.Built, lambda *big.Int) *pt.Built {
+	pt.SetRaw(b.E, ref.FMul(b.X, lambda), ref.FMul(b.Y, lambda), ref.FMul(b.Z, lambda))
+	return pt.Inspect(b.E, b.Want)
+}
+
+// addIntermediates lists named intermediates of the complete addition of (X1:Y1:Z1) and (X2:Y2:Z2); each is linear
+// in the scaling of either operand.
+func addIntermediates(p, q *pt.Built, negateQ bool) []*big.Int {
+	y2 := q.Y
+	if negateQ {
+		y2 = ref.FNeg(q.Y)
+	}
+	b3 := big.NewInt(21)
+	x1x2, y1y2, z1z2 := ref.FMul(p.X, q.X), ref.FMul(p.Y, y2), ref.FMul(p.Z, q.Z)
+	return []*big.Int{
+		x1x2, y1y2, z1z2,
+		ref.FAdd(ref.FMul(p.X, y2), ref.FMul(q.X, p.Y)),
+		ref.FAdd(ref.FMul(p.Y, q.Z), ref.FMul(y2, p.Z)),
+		ref.FAdd(ref.FMul(p.X, q.Z), ref.FMul(q.X, p.Z)),
+		ref.FAdd(y1y2, ref.FMul(b3, z1z2)),
+		ref.FSub(y1y2, ref.FMul(b3, z1z2)),
+		ref.FMul(big.NewInt(3), x1x2),
+		ref.FMul(b3, ref.FAdd(ref.FMul(p.X, q.Z), ref.FMul(q.X, p.Z))),
+	}
+}
+
+const numAddIntermediates = 10
+
+// doubleIntermediates lists named intermediates of the complete doubling; each is quadratic in the scaling.
+func doubleIntermediates(p *pt.Built) []*big.Int {
+	y2, z2 := ref.FMul(p.Y, p.Y), ref.FMul(p.Z, p.Z)
+	return []*big.Int{
+		y2, z2, ref.FMul(p.Y, p.Z), ref.FMul(p.X, p.Y), ref.FMul(big.NewInt(21), z2),
+		ref.FAdd(y2, ref.FMul(big.NewInt(21), z2)), ref.FSub(y2, ref.FMul(big.NewInt(63), z2)), ref.FMul(big.NewInt(8), y2),
+	}
+}
+
+const numDoubleIntermediates = 8
